@@ -145,4 +145,89 @@ example : answers1 defaultAddr exCfg
 example : (keysOf exCfg [.pointer exInt, .reference exInt, .pointer exInt]) =
     [some (.pointers, [.node exInt]), some (.references, [.node exInt]), some (.pointers, [.node exInt])] := by decide +kernel
 
+/-! ### Several Lexicons in one process (`procRun`: requests addressed to any number of Lexicons, interleaved in any way,
+    Lexicons destroyed and replaced by fresh ones at any time) -/
+
+/-- **Lexicons are independent.**  After any process history the state of Lexicon `k` is the state that its *own* history
+    — the requests addressed to it since it was (last) created — produces from a fresh Lexicon: nothing done to another
+    Lexicon, and nothing done to a predecessor that lived in the same place, has any effect on it. -/
+theorem C01_lexicons_independent_state (addr : Ref → Int) (cfg : Config) (evs : List Ev) (k : Nat) :
+    (procRun addr cfg Proc.fresh evs).1 k = (run1 addr cfg {} (lifeOf k [] evs)).1 :=
+  procRun_state addr cfg evs Proc.fresh (fun _ => []) (by intro i; simp [Proc.fresh, run1, runWith]) k
+
+/-- … and every answer given in the process is the answer of that single-Lexicon history (its last one). -/
+theorem C01_lexicons_independent (addr : Ref → Int) (cfg : Config) (pre post : List Ev) (k : Nat) (r : Req) :
+    (procRun addr cfg Proc.fresh (pre ++ .req k r :: post)).2[pre.length]? =
+      some ((answers1 addr cfg (lifeOf k [] pre ++ [r]))[(lifeOf k [] pre).length]?) := by
+  have hl := procRun_length addr cfg Proc.fresh pre
+  have hr := runWith_length (intern1 addr) State1.heap cfg ({} : State1) (lifeOf k [] pre)
+  rw [procRun_append]
+  simp only [procRun, procStep]
+  rw [List.getElem?_append_right (by omega)]
+  simp only [hl, Nat.sub_self, List.getElem?_cons_zero, Option.some.injEq]
+  rw [C01_lexicons_independent_state]
+  simp only [answers1, run1, runWith_snoc]
+  rw [List.getElem?_append_right (by omega)]
+  simp [hr, exec1]
+
+theorem lifeOf_append (k : Nat) (a b : List Ev) (acc : List Req) : lifeOf k acc (a ++ b) = lifeOf k (lifeOf k acc a) b := by
+  induction a generalizing acc with
+  | nil => rfl
+  | cons e es ih => cases e <;> simp [lifeOf, ih]
+
+theorem lifeOf_alive (k : Nat) (mid : List Ev) (h : ∀ e ∈ mid, e ≠ Ev.renew k) (acc : List Req) :
+    lifeOf k acc mid = acc ++ lifeOf k [] mid := by
+  induction mid generalizing acc with
+  | nil => simp [lifeOf]
+  | cons e es ih =>
+    have hes : ∀ e ∈ es, e ≠ Ev.renew k := fun x hx => h x (List.mem_cons_of_mem _ hx)
+    cases e with
+    | req j r =>
+      simp only [lifeOf]
+      by_cases hj : j = k
+      · simp only [hj, ↓reduceIte, List.nil_append]
+        rw [ih hes (acc ++ [r]), ih hes [r]]; simp
+      · simp only [hj, ↓reduceIte]; exact ih hes acc
+    | renew j =>
+      have hj : ¬ j = k := fun e => h (Ev.renew j) (List.mem_cons_self ..) (by rw [e])
+      simp only [lifeOf, hj, ↓reduceIte]; exact ih hes acc
+
+theorem answers1_prefix (addr : Ref → Int) (cfg : Config) (a b : List Req) (i : Nat) (hi : i < a.length) :
+    (answers1 addr cfg (a ++ b))[i]? = (answers1 addr cfg a)[i]? := by
+  have hr := runWith_length (intern1 addr) State1.heap cfg ({} : State1) a
+  simp only [answers1, run1, runWith_append]
+  rw [List.getElem?_append_left (by omega)]
+
+/-- **Unification inside a process.**  Two requests made of the same Lexicon `k` — with whatever requests to other
+    Lexicons, creations and destructions of other Lexicons in between, `k` itself not being destroyed — are answered with
+    the same node iff their normal forms in `k`'s own history are equal. -/
+theorem C01_unified_in_process {addr : Ref → Int} (hinj : Injective addr) (cfg : Config) (pre mid post : List Ev) (k : Nat)
+    (r1 r2 : Req) (hmid : ∀ e ∈ mid, e ≠ Ev.renew k) :
+    ((procRun addr cfg Proc.fresh (pre ++ .req k r1 :: (mid ++ .req k r2 :: post))).2[pre.length]? =
+      (procRun addr cfg Proc.fresh (pre ++ .req k r1 :: (mid ++ .req k r2 :: post))).2[pre.length + 1 + mid.length]?) ↔
+    (keysOf cfg (lifeOf k [] (pre ++ .req k r1 :: mid) ++ [r2]))[(lifeOf k [] pre).length]? =
+      (keysOf cfg (lifeOf k [] (pre ++ .req k r1 :: mid) ++ [r2]))[(lifeOf k [] (pre ++ .req k r1 :: mid)).length]? := by
+  have h1 := C01_lexicons_independent addr cfg pre (mid ++ .req k r2 :: post) k r1
+  have h2 := C01_lexicons_independent addr cfg (pre ++ .req k r1 :: mid) post k r2
+  have e2 : (pre ++ .req k r1 :: mid) ++ .req k r2 :: post = pre ++ .req k r1 :: (mid ++ .req k r2 :: post) := by simp
+  have l2 : (pre ++ .req k r1 :: mid).length = pre.length + 1 + mid.length := by simp; omega
+  rw [e2, l2] at h2
+  have hM : lifeOf k [] (pre ++ .req k r1 :: mid) = (lifeOf k [] pre ++ [r1]) ++ lifeOf k [] mid := by
+    rw [lifeOf_append]; simp only [lifeOf, ↓reduceIte]; exact lifeOf_alive k mid hmid _
+  have hpre : (answers1 addr cfg (lifeOf k [] pre ++ [r1]))[(lifeOf k [] pre).length]? =
+      (answers1 addr cfg (lifeOf k [] (pre ++ .req k r1 :: mid) ++ [r2]))[(lifeOf k [] pre).length]? := by
+    rw [hM, List.append_assoc]
+    exact (answers1_prefix addr cfg (lifeOf k [] pre ++ [r1]) (lifeOf k [] mid ++ [r2]) _ (by simp)).symm
+  rw [h1, h2, hpre, Option.some.injEq]
+  apply C01_unified hinj
+  · rw [hM]; simp
+  · simp
+
+/-- Non-vacuity: two Lexicons asked alternately, the first one then replaced: each is answered as if it were alone. -/
+example : (procRun defaultAddr exCfg Proc.fresh
+    [.req 0 (.pointer exInt), .req 1 (.reference exInt), .req 1 (.pointer exInt), .req 0 (.pointer exInt), .renew 0,
+     .req 0 (.reference exInt), .req 1 (.pointer exInt)]).2
+    = [some (some (.dyn 0)), some (some (.dyn 0)), some (some (.dyn 1)), some (some (.dyn 0)), none, some (some (.dyn 0)),
+       some (some (.dyn 1))] := by decide +kernel
+
 end Ipr.Unify
